@@ -35,6 +35,11 @@ def classify(toks, fn, cand, root, in_glob, matched, multi):
     ps = R.PathSpec(globstar='GLOBSTAR' in fn or 'GLOBSTARLONG' in fn, globstarlong='GLOBSTARLONG' in fn)
     full = os.path.join(root, cand)
     if matched and not in_glob:
+        if cand.endswith('\n') and (any(R.seg_is_gstar(sg, ps) for sg in segs[1]) or ('MATCHBASE' in fn and not R.has_sep(toks))) and \
+                G.globmatch('\n', gen.ser(segs[1][-1]) if segs[1] else '', flags=flags_of(f for f in fn if f not in ('MATCHBASE', 'NODIR'))):
+            # the `$` of the divider behind a recursive segment also matches in front of a final line feed: the `**` takes the name, the last
+            # segment pattern the line feed alone
+            return 'KF-DOLLAR-NEWLINE'
         if segs[2] and segs[1] and R.seg_is_gstar(segs[1][-1], ps) and not os.path.isdir(full):
             return 'KF-REALPATH-GLOBSTAR-SLASH-FILE'
         if any(R.nullable(R.norm_seg(sg)) for sg in segs[1] if not R.seg_is_gstar(sg, ps)):
@@ -305,9 +310,37 @@ def deep_link_scenarios(ctx):
                     ctx.count('deep_link_scenario_cases')
 
 
+def odd_name_scenarios(ctx):
+    """Names that end in / hold a line feed, a space, a bracket, a backslash: glob and globmatch(REALPATH) judge the whole name."""
+    from .c05 import ODD_TREE
+    lit = lambda x: tuple(('lit', c) for c in x)  # noqa: E731
+    ST, Q, GS = (('star',),), (('q',),), (('gstar',),)
+    one = lambda c: (('set', False, (('c', c),), '!'),)  # noqa: E731
+    shapes = [[lit('ab') + one('c')], [lit('ab') + Q], [lit('a')], [one('a')], [Q], [ST + lit('.txt')], [lit('x.txt')], [GS, lit('m.py')], [lit('sub'), ST + lit('.p') + one('y')],
+              [lit('b')], [GS, lit('f')], [lit('su') + one('b'), lit('f')], [lit('sub'), lit('f')], [lit('x') + Q], [lit('b') + Q], [GS, lit('n.py')], [lit('abc')], [ST]]
+    fsets = [('GLOBSTAR',), ('GLOBSTAR', 'MATCHBASE'), ('GLOBSTAR', 'DOTGLOB', 'NODIR'), ('GLOBSTAR', 'IGNORECASE')]
+    idx, todo = 0, []
+    for segs in shapes:
+        for fn in fsets:
+            for mode in ('root_dir', 'cwd'):
+                idx += 1
+                if ctx.mine(idx):
+                    todo.append((segs, fn, mode))
+    if not todo:
+        return
+    with T.Tree(ODD_TREE, 'c04o-') as tr:
+        for segs, fn, mode in todo:
+            toks = gen.join_segments(segs, None, lead=False, trail=False)
+            text = gen.ser(toks)
+            with ctx.case(timeout=20, label=('odd-names', text, fn, mode)):
+                check_pattern(ctx, tr, ctx.rng_for('on', text, fn), 0, 0, forced=([toks], text, ['EXTGLOB'] + list(fn), text, {}, mode))
+                ctx.count('odd_name_scenario_cases')
+
+
 def run(ctx):
     quick = ctx.quick
     punctuation_scenarios(ctx)
+    odd_name_scenarios(ctx)
     deep_link_scenarios(ctx)
     k = 0
     limit = 120 if quick else 10 ** 9
